@@ -11,8 +11,11 @@ impl<R: AsyncRead + Unpin + Send + Sync> AsyncReadPacket for R {
             return Err(Error::IllegalPacketLength);
         }
 
+        // split a separate reader from the stream (the length covers the packets id and content)
+        let mut take = self.take(length as u64);
+
         // extract the encoded packets id and validate if it is expected
-        let packet_id = self.read_varint().await?;
+        let packet_id = take.read_varint().await?;
         let expected_packet_id = T::ID;
         if packet_id != expected_packet_id {
             return Err(Error::IllegalPacketId {
@@ -20,9 +23,6 @@ impl<R: AsyncRead + Unpin + Send + Sync> AsyncReadPacket for R {
                 actual: packet_id,
             });
         }
-
-        // split a separate reader from the stream
-        let mut take = self.take(length as u64);
 
         // convert the received buffer into our expected packets
         T::read_from_buffer(&mut take).await
